@@ -120,7 +120,12 @@ func HMetadata() {
 			vreach("link")
 		}
 	default:
-		if opts.PreserveDevices {
+		// -D = --devices (character/block devices) + --specials (fifos, sockets)
+		want := opts.PreserveDevices
+		if srcKind == vfsx.KFifo || srcKind == vfsx.KSock {
+			want = opts.PreserveSpecials
+		}
+		if want {
 			vassert(got.Kind == srcKind, "-D: device/special entry has the wrong type")
 			if srcKind == vfsx.KChr || srcKind == vfsx.KBlk {
 				vassert(uint32(got.Rdev) == uint32(f.Rdev), "-D: device number differs from the source")
